@@ -758,6 +758,18 @@ fn harness_op(req: &Value) -> Option<R> {
             let r = std::fs::set_permissions(pth(req, "path"), std::fs::Permissions::from_mode(mode));
             Some(Ok(json!({"changed": r.is_ok()})))
         }
+        "poke" => {
+            // flip one bit of a file in place (same inode, same length): open, pread, pwrite
+            use std::os::unix::fs::FileExt;
+            let off = req.get("offset").and_then(|x| x.as_u64()).unwrap_or(0);
+            let r = std::fs::OpenOptions::new().read(true).write(true).open(pth(req, "path")).and_then(|f| {
+                let mut b = [0u8; 1];
+                f.read_exact_at(&mut b, off)?;
+                b[0] ^= 1;
+                f.write_all_at(&b, off)
+            });
+            Some(r.map(|_| json!({})).map_err(|e| ioerr_json(&e)))
+        }
         "ping" => Some(Ok(json!({"pong":true,"flavour":flavour(),"pid":std::process::id()}))),
         _ => None,
     }
